@@ -42,6 +42,13 @@ func proj4(p *dhcpv4.DHCPv4) map[string]any {
 }
 
 // dec4 runs the real decoder under recover and returns the spec-shaped outcome.
+// reuse overwrites a buffer the way the next datagram would
+func reuse(b []byte) {
+	for i := range b {
+		b[i] = b[i]*31 + 0x5b
+	}
+}
+
 func dec4(b []byte) (out map[string]any, p *dhcpv4.DHCPv4) {
 	defer func() {
 		if r := recover(); r != nil {
@@ -54,6 +61,7 @@ func dec4(b []byte) (out map[string]any, p *dhcpv4.DHCPv4) {
 	if err != nil {
 		return map[string]any{"ok": false}, nil
 	}
+	reuse(in) // the caller's buffer receives the next datagram: the decoded value is read after that
 	return map[string]any{"ok": true, "val": proj4(p)}, p
 }
 
@@ -294,6 +302,8 @@ func wirePacket4(rng *rand.Rand) ([]byte, []int) {
 }
 
 // genC04: byte strings -> FromBytes; TLC checks out = Dec4(in).
+func code2byte(c int) byte { return byte(c) }
+
 func genC04(o *Out, rng *rand.Rand, tier string) {
 	maxLen, nvalid, nrand := 6, 24, 1500
 	if tier == "thorough" {
@@ -340,6 +350,33 @@ func genC04(o *Out, rng *rand.Rand, tier string) {
 				}
 				emit(m, "corrupt-len-cookie")
 			}
+		}
+	}
+	// (b2) every option code with a few small values, in a packet whose hardware address length and name fields
+	// vary: plain names, names that look like option runs, bytes after the first NUL; no option may change how
+	// the header is read
+	for code := 1; code <= 254; code++ {
+		for k, val := range [][]byte{{1}, {2}, {3}, {}, {1, code2byte(code)}} {
+			h := append([]byte(nil), hdr...)
+			switch (code + k) % 4 {
+			case 0:
+				copy(h[44:], "srv")
+				copy(h[108:], "boot.img")
+			case 1: // well-formed option runs in the name fields
+				copy(h[44:], []byte{12, 2, 'h', 'i', 255})
+				copy(h[108:], []byte{67, 3, 'a', 'b', 'c', 66, 1, 'x', 255})
+			case 2: // bytes after the first NUL, option-like
+				copy(h[44:], []byte{'s', 0, 53, 1, 5, 255})
+				copy(h[108:], []byte{'f', 0, 51, 4, 0, 0, 1, 0})
+			default:
+				h[2] = byte([]int{0, 6, 16, 8}[(code/4)%4]) // hardware address length
+				copy(h[108:], []byte{255})
+			}
+			area := append([]byte{byte(code), byte(len(val))}, val...)
+			if k%2 == 0 {
+				area = append([]byte{61, 7, h[1], 1, 2, 3, 4, 5, 6}, area...) // with a client identifier of the "type, address" shape
+			}
+			emit(append(append(h, area...), 255), "every-code-and-header")
 		}
 	}
 	// (d) random / mutated packets up to 1500 bytes
